@@ -58,7 +58,7 @@ def nav(propid, nt_rule):
                       rc(500000, shards=6, max_size=500, corpus=['valid_objects']), fuzz(1200000, shards=10, max_len=1024, corpus=['valid_objects'])],
         ),
         exhaustive_note=lambda tier, tot: [dict(scope='every protocol-legal call history (any length; visited-set BFS) on every object- and array-rooted tree with '
-                                                 '<= %d nodes over {object, array, int, bool}' % (5 if tier == 'quick' else 7), exhaustive=True,
+                                                 '<= %d nodes over {object, array, int, bool}, with two field-naming schemes (spaced single letters; prefix chain a, ab, abc)' % (5 if tier == 'quick' else 7), exhaustive=True,
                                                  trees=tot['counters'].get('enum_trees', 0), joint_states=tot['counters'].get('enum_joint_states', 0),
                                                  transitions=tot['counters'].get('enum_transitions', 0))],
     )
